@@ -46,6 +46,10 @@ def gen_form_case(rng, tier, forms=("arc", "path", "seq"), heur_p=0.35, nmax=Non
         if rng.random() < 0.4:
             # queries issued BEFORE the heuristic (fills the object's caches; they must not matter afterwards)
             case["pre"] = rng.sample(["n", "obj", "con", "qubo_o", "qubo_f"], rng.randint(1, 3))
+    if rng.random() < 0.25:
+        # the graph is assembled through the formulation object's own add_node / add_arc / set_depot, the depot named late
+        case["via"] = "wrapper"
+        case["arcs_before_depot"] = rng.randint(0, len(case["spec"]["arcs"]))
     return case
 
 
@@ -93,20 +97,39 @@ def shrink_form_case(case):
 def build_form(case, with_heur=True):
     """returns (object, heuristic outcome) where outcome is None / 'ok' / error kind"""
     from vrpqubo.routing_problem import ArcBasedRoutingProblem, PathBasedRoutingProblem, SequenceBasedRoutingProblem
-    v = VU.build_vrptw(case["spec"])
     form = case["form"]
+    if case.get("via") == "wrapper":
+        spec = case["spec"]
+        v = None
+        o0 = (ArcBasedRoutingProblem() if form == "arc" else PathBasedRoutingProblem() if form == "path"
+              else SequenceBasedRoutingProblem(strict=case["strict"]))
+        if spec.get("cap") is not None:
+            o0.set_vehicle_cap(VU.val(spec["cap"]))
+        if spec.get("init") is not None:
+            o0.set_initial_loading(VU.val(spec["init"]))
+        for nd in spec["nodes"][1:] + spec["nodes"][:1]:
+            o0.add_node(nd["name"], VU.val(nd["demand"]), (VU.val(nd["lo"]), VU.val(nd["hi"])))
+        kb = case.get("arcs_before_depot", 0)
+        for a in spec["arcs"][:kb]:
+            o0.add_arc(a[0], a[1], VU.val(a[2]), VU.val(a[3]))
+        o0.set_depot(spec["nodes"][0]["name"])
+        for a in spec["arcs"][kb:]:
+            o0.add_arc(a[0], a[1], VU.val(a[2]), VU.val(a[3]))
+    else:
+        v = VU.build_vrptw(case["spec"])
+        o0 = None
     if form == "arc":
-        o = ArcBasedRoutingProblem(v)
+        o = o0 if o0 is not None else ArcBasedRoutingProblem(v)
         o.add_time_points([VU.val(t) for t in case["grid"]])
     elif form == "path":
-        o = PathBasedRoutingProblem(v)
+        o = o0 if o0 is not None else PathBasedRoutingProblem(v)
         for r in case["routes"]:
             try:
                 o.add_route(list(r))
             except ValueError:
                 pass
     else:
-        o = SequenceBasedRoutingProblem(v, strict=case["strict"])
+        o = o0 if o0 is not None else SequenceBasedRoutingProblem(v, strict=case["strict"])
         o.set_max_vehicles(case["V"])
         o.set_max_sequence_length(case["L"])
     outcome = None
